@@ -39,7 +39,11 @@ def fin_closed(w):
     out = []
     for c in w.clients:
         wants = any(s[0] == "close" for t in c.threads for s in t)
-        if wants and c.app.closed != 1:
+        if wants and c.app.closed != 1 and c.ghost.get("close_rejected"):
+            out.append(dict(oracle="closed-eventually", sig="server-rejected-%s" % c.ghost["close_rejected"],
+                            msg="client %d closed, the server answered its %s command with an error instead of closed/released and the client "
+                                "waits for ever; obs=%r" % (c.ci, c.ghost["close_rejected"], c.app.obs)))
+        elif wants and c.app.closed != 1:
             out.append(dict(oracle="closed-eventually", sig="c%d" % c.ci,
                             msg="quiescent but client %d has %d closed notifications; obs=%r" % (c.ci, c.app.closed, c.app.obs)))
     return out
@@ -109,7 +113,7 @@ FLOWS = {
     "input": [("input",), ("refresh",), ("completions_np", "4"), ("nameplate", "4"), ("completions_w", "pur"), ("words", "purple-sausages")],
     "input-short": [("input",), ("nameplate", "4"), ("words", "purple-sausages")],
 }
-CODE_STEPS = ("set_code", "allocate", "input", "nameplate", "words", "refresh", "completions_np", "completions_w",
+CODE_STEPS = ("dilate", "set_code", "allocate", "input", "nameplate", "words", "refresh", "completions_np", "completions_w",
               "set_code_peer", "nameplate_peer", "words_peer")
 
 
@@ -180,6 +184,14 @@ def scenarios(tier):
                         max_depth=90, max_states=300000))
     S.append(mk("third-polite-pair-dev2", cfg("set", "same", "delegate", drops=(0, 0), fine=(0, 1), raw="polite"), dev_bound=2, max_depth=250))
     S.append(mk("third-nopake-pair-dev2", cfg("input-short", "same", "delegate", drops=(0, 0), fine=(0, 1), raw="nopake"), dev_bound=2, max_depth=250))
+    # dilation requested early on both sides; a conformant server may replay the peer's dilate-0 before its version
+    from ..env import dilation as _dil     # noqa: F401  (Noise stand-in entropy / make_side seams)
+    dcl = [dict(threads=[[("set_code", CODE), ("dilate",)]], dilation=True, mode="deferred", drops=0),
+           dict(threads=[[("set_code", CODE), ("dilate",)]], dilation=True, mode="deferred", drops=0)]
+    S.append(mk("dilate-early-reorder", dict(clients=dcl, net=True, explored=("down", "up", "api", "connect", "reorder"), coarse=[1], reorder=1,
+                                              monitors=[mon_internal], final_monitors=[fin_closed], trace_machines=True,
+                                              step_guard=legal_guard, api_hook=c09.api_hook),
+                max_depth=200, max_states=300000 if q else 3000000))
     if not q:
         S.append(mk("pair-same-reorder2-dup-drop", cfg("set", "same", "delegate", drops=(1, 0), reorder=2, dup=1), max_depth=120, max_states=3000000))
         S.append(mk("pair-input-same-fine0", cfg("input-short", "same", "deferred", drops=(1, 0), reorder=1), max_depth=120, max_states=3000000))
